@@ -49,7 +49,10 @@ CLAIM = dict(
 
 THEOREMS = ["nnid_range", "fill_wellformed", "fill_loads_exactly", "attempts_bounded",
             "load_sound", "load_error_exact", "resend_exact",
-            "count_shortcut_counterexample", "readback_counterexample", "block_count_overflow_example"]
+            "count_shortcut_counterexample", "readback_counterexample", "block_count_overflow_example",
+            # region-compression contract discharged by C12 (no CompressOK hypothesis)
+            "compress_contract_discharged", "compressC12_eq", "fill_wellformed_c12", "load_sound_c12",
+            "load_error_exact_c12", "attempts_bounded_c12", "resend_exact_c12"]
 
 RULE = ("cases = (machine of 1-40 chips: rectangles at several origins incl. aligned 4x4/8x8 blocks, scattered chips up to "
         "coordinate 255; 1-3 binaries of length around multiples of the buffer (buffer in {4,8,16,64,128,256}); core sets "
@@ -538,6 +541,10 @@ def eval_cases(ctx, cases):
         batch.append(("model", dict(base, op="load", compress=res["records"], buf=case["buf"], app_id=case["app_id"],
                                     n_tries=case["n_tries"], wait=case["wait"], use_count=case["use_count"],
                                     apps=apps_j, nn=case["nn"])))
+        # the controller of the `_c12` theorems: region compression by C12's model instead of the table
+        batch.append(("model_c12", dict(base, op="load", buf=case["buf"], app_id=case["app_id"],
+                                        n_tries=case["n_tries"], wait=case["wait"], use_count=case["use_count"],
+                                        apps=apps_j, nn=case["nn"])))
         batch.append(("machine", dict(base, op="machine", reqs=[r for r, _ in res["trace"]])))
         fills = split_fills(res["trace"], k)
         for i, f in enumerate(fills):
@@ -650,17 +657,21 @@ def judge(ctx, case, res, kinds, rs, n_fills, k):
                                   "load_application returned normally" if outcome == "ok" else "SpiNNakerLoadingError raised",
                                   r["bad"][:6]), case)
     # ---- (a) model correspondence ------------------------------------------------------
-    mo = by["model"][0]
     it = [norm_entry(e) for e in canon_trace(res["trace"], k)]
-    mt = [norm_entry(e) for e in canon_trace([tuple(e) for e in mo["trace"]], k)]
-    if it != mt:
-        i = next((i for i, (a, b) in enumerate(zip(it, mt)) if a != b), min(len(it), len(mt)))
-        ctx.mismatch("c09.trace", "request/reply %d differs (impl %d entries, model %d): impl=%r model=%r" % (
-            i, len(it), len(mt), it[i:i + 1], mt[i:i + 1]), case)
-    elif canon_outcome(outcome) != canon_outcome(mo["outcome"]):
-        ctx.mismatch("c09.outcome", "impl=%r model=%r" % (canon_outcome(outcome), canon_outcome(mo["outcome"])), case)
-    elif sorted(mo["cores"]) != sorted(res["after"]) or mo["nn"] != res["nn"]:
-        ctx.mismatch("c09.state", "final core states / nn id differ: impl nn=%r model nn=%r" % (res["nn"], mo["nn"]), case)
+    for kind, suite in (("model", "c09"), ("model_c12", "c09.c12")):
+        mo = by[kind][0]
+        mt = [norm_entry(e) for e in canon_trace([tuple(e) for e in mo["trace"]], k)]
+        if it != mt:
+            i = next((i for i, (a, b) in enumerate(zip(it, mt)) if a != b), min(len(it), len(mt)))
+            ctx.mismatch(suite + ".trace", "request/reply %d differs (impl %d entries, model %d): impl=%r model=%r" % (
+                i, len(it), len(mt), it[i:i + 1], mt[i:i + 1]), case)
+        elif canon_outcome(outcome) != canon_outcome(mo["outcome"]):
+            ctx.mismatch(suite + ".outcome", "impl=%r model=%r" % (canon_outcome(outcome), canon_outcome(mo["outcome"])), case)
+        elif sorted(mo["cores"]) != sorted(res["after"]) or mo["nn"] != res["nn"]:
+            ctx.mismatch(suite + ".state", "final core states / nn id differ: impl nn=%r model nn=%r" % (res["nn"], mo["nn"]), case)
+        else:
+            continue
+        break
 
 
 def run(ctx):
